@@ -1,9 +1,12 @@
 """C08 — Reserved `metador_*` namespace is invisible and untouchable for users.
 
 Lean: Model/Paths.lean (path predicates, guard sequencing of a wrapped method, filtered
-listings over a flat raw tree), Proofs/Paths.lean, Props/C08.lean; translated on every run:
+listings over a flat raw tree), Model/PathsAlias.lean (path arguments of other types than str,
+values that name / reference other nodes, a raw tree with links), Proofs/Paths.lean,
+Proofs/PathsAlias.lean, Props/C08.lean; translated on every run:
 Gen/Paths.lean (the four functions of container/utils.py) + Bridge/Paths.lean, and
-Gen/GroupMethods.lean (method table of the wrapper classes) + Bridge/GroupMethods.lean.
+Gen/GroupMethods.lean (method table of the wrapper classes, the value classes refused by
+`__setitem__`, the statements of `_guard_path`) + Bridge/GroupMethods.lean.
 
 Correspondence (driver `drv_pth`):
   * `paths`  — is_internal_path / is_meta_base_path / to_meta_base_path / to_data_node_path on
@@ -12,8 +15,15 @@ Correspondence (driver `drv_pth`):
                keys/len/iter/values/items/visit/visititems/in through the wrapper vs. the
                model's filtered listing, exact;
   * `hist`   — histories mixing data and metadata operations: for every path-taking call the
-               model says `rej` (some path argument has a reserved segment) or `pass`;
-               `rej` must be an error on the real code.
+               model says `rej` (some path argument has a reserved segment, or is not a str,
+               or the assigned value is of a link / reference class) or `pass`;
+               `rej` must be an error on the real code. Groups: `proto` (protocol x reserved
+               shape x argument position), `near`, `ptype` (the same with the path handed over
+               as bytes, numpy.bytes_, numpy.str_, a str subclass, pathlib, tuple, bytearray -
+               reserved and ordinary shapes), `alias` (SoftLink / ExternalLink / HardLink /
+               node object / object + region reference / array of references / named datatype
+               assigned under ordinary names, to reserved and to user targets, followed by
+               user operations through the new name), `rand`.
   * `attrs`  — (oracle only, no model lines) attribute sweep: after a history, on every user
                node, every public attribute of the *raw* driver object (dir() of the h5py /
                IH5 object and of its class, plus the zero-argument collection hooks) is
@@ -26,7 +36,13 @@ argument raises and leaves the raw dump of `mc.__wrapped__` unchanged; (b) no li
 result contains a reserved segment; (c) after every step the user-visible tree equals a plain
 `h5py.File` driven by the same user operations (reserved calls are not user operations);
 (d) no attribute of the raw object reachable through the wrapper hands out a reserved name or a
-bookkeeping node, and none addresses a bookkeeping entity when given a reserved path.
+bookkeeping node, and none addresses a bookkeeping entity when given a reserved path;
+(e) once a value that names / references other nodes (or a named datatype) has been accepted:
+everything reachable by names alone (`keys` -> `in` -> `[]` recursively, links followed) is no
+bookkeeping entity - neither by reserved name nor (h5py driver) by HDF5 object identity under an
+ordinary name - and equals what is reachable in the plain tree (`check_walk`).
+A path handed over as a non-str value may be refused wholesale (that is "rejected without
+effect"); if it is served, it must be served like on the plain tree.
 """
 import os
 
@@ -43,15 +59,22 @@ LEAN = dict(
     theorems=[T + n for n in [
         "isInternal_iff", "isInternal_of_reserved_seg", "metaBase_roundtrip", "metaBase_is_reserved",
         "methods_guarded", "reserved_rejected", "reserved_rejected_table", "userView_hides",
-        "contains_reserved_rejected", "near_miss_not_reserved", "bookkeeping_invisible", "userView_refines", "userView_history"]]
+        "contains_reserved_rejected", "near_miss_not_reserved", "bookkeeping_invisible", "userView_refines", "userView_history",
+        "typed_guards_extend_str", "typed_rejected", "typed_rejected_table", "link_values_refused", "link_values_refused_src",
+        "links_never_accepted", "visible_names_are_user_entities", "visible_names_are_user_entities_src", "softlink_accepted_exposes",
+        "type_values_refused", "no_raw_handle_escapes", "legacy_named_type_escapes"]]
     + [B1 + n for n in ["gen_is_internal_path", "gen_is_meta_base_path", "gen_to_meta_base_path",
                         "gen_to_data_node_path", "gen_constants"]]
     + [B2 + n for n in ["methods_guarded", "listings_filtered", "protocol_covered", "unknown_refused",
-                        "passthrough_harmless", "table_nonempty"]],
+                        "passthrough_harmless", "table_nonempty", "link_values_refused", "type_values_refused", "guard_path_shape"]],
     drivers=["drv_pth"],
 )
 
 REVERSED_PROBE = True  # F18: reversed(group) must be filtered too (fixed in /repo 3aabc95)
+# F35: objects handed out by protocol methods that are NOT wrapped (h5py named datatypes:
+# `m["t"] = numpy.dtype("int32")`, then `m["t"].parent` was the raw h5py group listing
+# metador_container). Fixed in /repo 12ab905 (such values are refused).
+RAW_HANDLE_PROBE = True
 
 
 def translate(ctx):
@@ -65,9 +88,64 @@ def hx(s):
     return s.encode().hex() if s else "-"
 
 
+# A path argument of an op is a plain `str`, or `{"t": <type>, "p": <text>}`: the same text handed
+# over as another Python type (what h5py itself accepts as a name is str and bytes; the others
+# are values a caller may pass where a path is expected).
+PATH_TYPES = ["bytes", "npbytes", "npstr", "strsub", "pathlib", "tuple", "bytearray"]
+STR_LIKE = ("npstr", "strsub")    # subclasses of str: every str method works on them
+BYTES_LIKE = ("bytes", "npbytes")  # accepted as names by h5py
+
+
+def ptxt(p):
+    """the path text of a (possibly typed) path argument"""
+    return p["p"] if isinstance(p, dict) else p
+
+
+def ptype(p):
+    return p["t"] if isinstance(p, dict) else "str"
+
+
+def is_strlike(p):
+    return ptype(p) == "str" or ptype(p) in STR_LIKE
+
+
+def typed(p, t):
+    return p if t == "str" else {"t": t, "p": p}
+
+
+class _StrSub(str):
+    """a user-defined subclass of str"""
+
+
+def _mk(p):
+    """materialise a (possibly typed) path argument"""
+    if not isinstance(p, dict):
+        return p
+    t, x = p["t"], p["p"]
+    if t == "bytes":
+        return x.encode()
+    if t == "bytearray":
+        return bytearray(x.encode())
+    if t == "strsub":
+        return _StrSub(x)
+    if t == "pathlib":
+        import pathlib
+        return pathlib.PurePosixPath(x)
+    if t == "tuple":
+        return tuple(x.split("/"))
+    import numpy as np
+    if t == "npbytes":
+        return np.bytes_(x.encode())
+    if t == "npstr":
+        return np.str_(x)
+    raise RuntimeError("unknown path type %r" % (t,))
+
+
 def has_reserved(p):
     """Specification of 'reserved': some '/'-separated segment starts with metador_ (this is
-    the property's wording, deliberately not `is_internal_path`)."""
+    the property's wording, deliberately not `is_internal_path`). For a typed path argument
+    the text it spells."""
+    p = ptxt(p)
     return isinstance(p, str) and any(seg.startswith("metador_") for seg in p.split("/"))
 
 
@@ -99,6 +177,8 @@ def _val(v):
 def _desc_val(x):
     import numpy as np
     a = np.asarray(x)
+    if a.dtype.kind == "O":  # object / region references: tokens of the file they live in
+        return [str(a.dtype), list(a.shape), "<%d references>" % a.size]
     return [str(a.dtype), list(a.shape), a.tobytes().hex()]
 
 
@@ -120,10 +200,89 @@ def dump(root):
     def cb(name, node):
         if _is_ds(node):
             out[name] = ["d", _desc_val(node[()]), _attrs(node)]
-        else:
+        elif hasattr(node, "keys"):
             out[name] = ["g", _attrs(node)]
+        else:  # named datatype (h5py driver only)
+            out[name] = ["t", str(getattr(node, "dtype", "?")), _attrs(node)]
 
     root.visititems(cb)
+    return out
+
+
+def _kind(n):
+    return "d" if _is_ds(n) else ("g" if hasattr(n, "keys") else "t")
+
+
+def _raw_of(n):
+    """the raw driver object behind a node handed out by the interface (observation only)"""
+    try:
+        from metador_core.container.wrappers import MetadorNode
+        if isinstance(n, MetadorNode):
+            return n.__wrapped__
+    except Exception:
+        pass
+    return n
+
+
+def _ident(n):
+    """identity of the HDF5 object behind a node (h5py driver): (file number, object address).
+    None where the driver has no object identity besides the name (IH5)."""
+    try:
+        import h5py
+        r = _raw_of(n)
+        if isinstance(r, h5py.HLObject):
+            info = h5py.h5o.get_info(r.id)
+            return (info.fileno, info.addr)
+    except Exception:
+        pass
+    return None
+
+
+WALK_LIMIT = 250
+WALK_DEPTH = 6
+
+
+def walk(root, seen_nodes=None):
+    """What a user reaches by names alone: from `root`, every key of every group is looked up
+    with `in` and `[]` and groups are descended into - links are followed, so a node shows up
+    under every name it can be reached by (bounded: link cycles). name -> [kind, …]; the nodes
+    handed out are appended to `seen_nodes` as (name, node)."""
+    out = {}
+
+    def rec(g, path, d):
+        try:
+            ks = sorted(g.keys())
+            ln = len(g)
+        except Exception as e:
+            out[path or "/"] = ["g", "keys-raise", _exc(e)]
+            return
+        out[path or "/"] = ["g", ks, ln]
+        for k in ks:
+            if len(out) > WALK_LIMIT:
+                return
+            p = path + "/" + k
+            try:
+                inn = bool(k in g)
+            except Exception:
+                inn = "err"
+            try:
+                n = g[k]
+            except Exception:
+                out[p] = ["unresolvable", inn]
+                continue
+            if n is None:
+                out[p] = ["none", inn]
+                continue
+            if seen_nodes is not None:
+                seen_nodes.append((p, n))
+            kd = _kind(n)
+            if kd == "g" and d < WALK_DEPTH:
+                rec(n, p, d + 1)
+                out[p] = out[p] + [inn]
+            else:
+                out[p] = [kd, inn]
+
+    rec(root, "", 0)
     return out
 
 
@@ -151,9 +310,12 @@ class _Run:
         self.lockstep = not case.get("no_ref")
         self._rawdump = None  # cached raw dump (valid while only rejected calls happened)
         self._nview = 0
+        self.aliased = False  # a value naming / referencing other nodes was accepted
+        self._aux = None
+        self.tmp = tmp
 
     def close(self):
-        for x in (self.mc, self.ref):
+        for x in (self.mc, self.ref, self._aux):
             try:
                 x.close()
             except Exception:
@@ -188,48 +350,93 @@ class _Run:
                 del node.meta[op[2]]
             return None
         g = self.grp(on, op[1])
+        a2 = _mk(op[2]) if len(op) > 2 else None
         if k == "getitem":
-            n = g[op[2]]
-            return ["node", n.name, "d" if _is_ds(n) else "g"]
+            n = g[a2]
+            return ["node", n.name, _kind(n)]
         if k == "get":
-            n = g.get(op[2])
-            return ["none"] if n is None else ["node", n.name, "d" if _is_ds(n) else "g"]
+            n = g.get(a2)
+            return ["none"] if n is None else ["node", n.name, _kind(n)]
         if k == "in":
-            return ["bool", bool(op[2] in g)]
+            return ["bool", bool(a2 in g)]
         if k == "set":
-            g[op[2]] = _val(op[3])
+            g[a2] = _val(op[3])
+        elif k == "setv":  # value that can alias / reference other nodes, or a named datatype
+            g[a2] = self.value(on, op[3])
+        elif k == "cdv":  # the same kind of value through create_dataset(data=…)
+            g.create_dataset(a2, data=self.value(on, op[3]))
         elif k == "cg":
-            g.create_group(op[2])
+            g.create_group(a2)
         elif k == "rg":
-            g.require_group(op[2])
+            g.require_group(a2)
         elif k == "cd":
-            g.create_dataset(op[2], data=_val(op[3]))
+            g.create_dataset(a2, data=_val(op[3]))
         elif k == "rd":
-            g.require_dataset(op[2], shape=tuple(op[3]), dtype="int64")
+            g.require_dataset(a2, shape=tuple(op[3]), dtype="int64")
         elif k == "del":
-            del g[op[2]]
+            del g[a2]
         elif k == "move":
-            g.move(op[2], op[3])
+            g.move(a2, _mk(op[3]))
         elif k == "copy":
-            g.copy(op[2], op[3])
+            g.copy(a2, _mk(op[3]))
         elif k == "copyg":  # dest given as group object (+ name=)
-            kw = {} if op[4] is None else {"name": op[4]}
-            g.copy(op[2], self.grp(on, op[3]), **kw)
+            kw = {} if op[4] is None else {"name": _mk(op[4])}
+            g.copy(a2, self.grp(on, op[3]), **kw)
         elif k == "copyn":  # source given as node object, dest string
-            g.copy(self.grp(on, op[2]), op[3])
+            g.copy(self.grp(on, op[2]), _mk(op[3]))
         elif k == "copyng":  # source node object, dest group object (+ name=)
-            kw = {} if op[4] is None else {"name": op[4]}
+            kw = {} if op[4] is None else {"name": _mk(op[4])}
             g.copy(self.grp(on, op[2]), self.grp(on, op[3]), **kw)
         else:
             raise RuntimeError("unknown op %r" % (op,))
         return None
+
+    class NoSuchValue(Exception):
+        """the value cannot be obtained through the interface (nothing to assign)"""
+
+    def value(self, on, v):
+        """A value for `__setitem__` / `create_dataset(data=…)` that names or references other
+        nodes. Node objects and references are obtained through the interface under test
+        (`on[...]`, `.ref`, `.regionref`) - never through `__wrapped__`."""
+        import h5py
+        import numpy as np
+        kind = v["v"]
+        if kind == "soft":
+            return h5py.SoftLink(v["to"])
+        if kind == "ext":
+            fn = v.get("file")
+            if fn is None:  # the container's own file
+                fn = self.ref.filename if on is self.ref else os.path.join(self.tmp, "c.h5")
+            return h5py.ExternalLink(fn, v["to"])
+        if kind == "hard":
+            return h5py.HardLink()
+        if kind == "dtype":
+            return np.dtype(v.get("t", "int32"))
+        if kind == "dtypeobj":  # a committed datatype object of another (the user's own) file
+            if self._aux is None:
+                self._aux = h5py.File(os.path.join(self.tmp, "aux.h5"), "w")
+                self._aux["t"] = np.dtype("int32")
+            return self._aux["t"]
+        try:
+            node = self.grp(on, v["of"])
+            if kind == "node":
+                return node
+            if kind == "ref":
+                return node.ref
+            if kind == "regref":
+                return node.regionref[0:1]
+            if kind == "refarr":
+                return np.array([node.ref], dtype=h5py.ref_dtype)
+        except Exception as e:
+            raise self.NoSuchValue("%s: %s" % (_exc(e), e))
+        raise RuntimeError("unknown value %r" % (v,))
 
     @staticmethod
     def path_args(op):
         """Path-typed arguments of an op as given by the user (the group a method is invoked on
         and node objects obtained through the interface are not path arguments)."""
         k = op[0]
-        if k in ("getitem", "get", "in", "set", "cg", "rg", "cd", "rd", "del"):
+        if k in ("getitem", "get", "in", "set", "setv", "cdv", "cg", "rg", "cd", "rd", "del"):
             return [op[2]]
         if k in ("move", "copy"):
             return [op[2], op[3]]
@@ -322,6 +529,54 @@ class _Run:
             if not ok:
                 self.hit("user-node-not-addressable", i, op, path=name)
 
+    def check_walk(self, i, op):
+        """(b) + (c) by names alone, following whatever the names lead to: nothing reachable is a
+        bookkeeping entity (by reserved name, or - h5py driver - by object identity under an
+        ordinary name), and what is reachable equals what is reachable in the plain tree."""
+        nodes = []
+        try:
+            mine = walk(self.mc, nodes)
+        except Exception as e:
+            self.hit("user-view-raises", i, op, exc=_exc(e), msg=str(e)[:200])
+            return
+        self.tags.add("walked")
+        bad = sorted(n for n in mine if has_reserved(n))
+        if bad:
+            self.hit("listing-exposes-reserved", i, op, via="keys+getitem", group="/", names=_nouuid(bad)[:5])
+        if self.drv == "h5":
+            book = {}
+
+            def cb(name, node):
+                if has_reserved(name):
+                    book.setdefault(_ident(node), name)
+            self.raw.visititems(cb)
+            book.pop(None, None)
+            exposed = [(p, book[_ident(n)]) for p, n in nodes if _ident(n) in book]
+            if exposed:
+                self.tags.add("exposed")
+                self.hit("alias-exposes-bookkeeping", i, op, count=len(exposed),
+                         names=[_nouuid_deep([a, "/" + b]) for a, b in exposed[:4]])
+        if RAW_HANDLE_PROBE:
+            for p, n in nodes:
+                if _raw_of(n) is not n:
+                    continue  # a wrapper object: its attributes are the subject of the attribute sweep
+                for attr in ("parent", "file"):
+                    try:
+                        v = getattr(n, attr)
+                        names = sorted(k for k in v.keys() if has_reserved(k))
+                    except Exception:
+                        continue
+                    if names:
+                        self.hit("raw-handle-escapes", i, op, name=p, type=type(n).__name__, via=attr, lists=_nouuid(names)[:4])
+                        break
+        if self.lockstep:
+            want = walk(self.ref)
+            if mine != want:
+                ks = sorted(set(mine) | set(want))
+                diff = [k for k in ks if mine.get(k) != want.get(k)][:4]
+                self.hit("user-tree-differs", i, op, via="keys+getitem", names=_nouuid(diff),
+                         container=[_nouuid_deep(mine.get(k)) for k in diff], plain=[want.get(k) for k in diff])
+
     # -- one step
     def step(self, i, op):
         k = op[0]
@@ -346,7 +601,17 @@ class _Run:
                     self.out.append("err")
                 self.tags.add("skipped-no-receiver")
                 return
-        if not reserved and k in ("copyg", "copyng") and op[4] is not None and op[4].startswith("/"):
+        if k in ("copyg", "copyng") and op[4] is not None and not is_strlike(op[4]):
+            # observation, outside the property: `name=` is formatted into the destination path
+            # (f-string), so a bytes name b"x" becomes the node name "b'x'" (h5py: "x").
+            # Not generated as a user operation.
+            self.out.append("err")
+            self.tags.add("skipped-typed-name")
+            return
+        for p_ in pargs:
+            if isinstance(p_, dict):
+                self.tags.add("ptype:%s:%s" % (p_["t"], "reserved" if has_reserved(p_) else "user"))
+        if not reserved and k in ("copyg", "copyng") and op[4] is not None and ptxt(op[4]).startswith("/"):
             # observation, outside the property: an absolute `name=` next to a destination
             # group is taken relative to the group by the wrapper (dest.name + "/" + name) and
             # from the root by h5py. Not generated as a user operation.
@@ -355,7 +620,7 @@ class _Run:
             return
         if reserved:
             self.tags.add("reserved:" + k)
-            if any(has_reserved(p) and not p.startswith("metador_") and "/metador_" in p for p in pargs):
+            if any(has_reserved(p) and not ptxt(p).startswith("metador_") and "/metador_" in ptxt(p) for p in pargs):
                 self.tags.add("reserved-nested")
             before = self._rawdump if self._rawdump is not None else dump(self.raw)
             try:
@@ -385,11 +650,15 @@ class _Run:
             r_mc = self.call(self.mc, op)
         except Exception as e:
             e_mc = e
+        refused_clean = False
         if self.lockstep:
             advance = e_mc is None
             if not advance and k not in ("getitem", "get", "in", "meta_set", "meta_del", "patch"):
                 try:
                     advance = dump(self.mc) != dump(self.ref)
+                    # refused, and the user-visible tree is the one that was examined after the
+                    # previous step: nothing new to look at
+                    refused_clean = not advance
                 except Exception:
                     advance = False
                 if advance:
@@ -406,7 +675,7 @@ class _Run:
             if e_mc is not None and isinstance(e_mc, ValueError) and "internal" in str(e_mc).lower():
                 line = "err-internal"
             self.out.append(line)
-            if any("metador" in p.lower() for p in pargs):
+            if any("metador" in ptxt(p).lower() for p in pargs):
                 self.tags.add("near-miss:" + k + (":ok" if e_mc is None else ":err"))
         if k in ("meta_set", "meta_del"):
             self.tags.add(k + (":ok" if e_mc is None else ":err"))
@@ -421,16 +690,26 @@ class _Run:
             if k == "get":
                 a = ["none"] if a == ["err"] else a
                 b = ["none"] if b == ["err"] else b
-            if not case_malformed(pargs):
+            refused_type = e_mc is not None and not all(is_strlike(p) for p in pargs)
+            if not case_malformed(pargs) and not refused_type:
+                # (a path handed over as a non-str value may be refused wholesale; when it is
+                # served, it is served like on the plain tree)
                 if a != b:
                     self.hit("lookup-differs", i, op, container=a, plain=b)
         if (e_mc is None) != (e_ref is None) and self.lockstep and k not in ("meta_set", "meta_del", "patch"):
             self.tags.add("outcome-differs:" + k)
-        if k not in ("getitem", "get", "in"):
+        if k in ("setv", "cdv"):
+            self.tags.add("value:%s:%s" % (op[3].get("v"), "ok" if e_mc is None else ("unobtainable" if isinstance(e_mc, self.NoSuchValue) else "err")))
+            if e_mc is None:
+                self.aliased = True
+        if k not in ("getitem", "get", "in") and not refused_clean:
             self.check_view(i, op)
+            if self.aliased and not (self.drv == "ih5" and k not in ("setv", "cdv")):
+                self.check_walk(i, op)
 
 
 def case_malformed(paths):
+    paths = [ptxt(p) for p in paths]
     return any(p == "" or "//" in p or p.endswith("/") and p != "/" or "." in p.split("/") for p in paths)
 
 
@@ -444,6 +723,8 @@ def impl_hist(case):
         for i, op in enumerate(case["ops"]):
             run.step(i, op)
         run.check_view(len(case["ops"]), ["end"])
+        if run.aliased or case.get("walk"):
+            run.check_walk(len(case["ops"]), ["end"])
         return dict(out=run.out, oracle=run.oracle[:6], tags=sorted(run.tags))
     finally:
         if run is not None:
@@ -651,7 +932,16 @@ def _sweep_names(node):
 
 def _nouuid(names):
     import re
-    return sorted(set(re.sub(r"=[0-9a-f]{8}-[0-9a-f-]{27}", "=<uuid>", x) for x in names))
+    return sorted(set(re.sub(r"[0-9a-f]{8}-[0-9a-f-]{27}", "<uuid>", x) for x in names))
+
+
+def _nouuid_deep(x):
+    import re
+    if isinstance(x, str):
+        return re.sub(r"[0-9a-f]{8}-[0-9a-f-]{27}", "<uuid>", x)
+    if isinstance(x, list):
+        return [_nouuid_deep(y) for y in x]
+    return x
 
 
 def _reserved_in_raw(rawdump):
@@ -798,6 +1088,38 @@ def impl_attrs(case):
         shutil.rmtree(tmp, ignore_errors=True)
 
 
+def impl_foreign(case):
+    """Informational, outside C08: a file that already contains a named datatype (planted through
+    the raw file here; not creatable through the container since F35). `_wrap_if_node` hands such
+    a node out as the raw h5py object."""
+    import shutil
+    import tempfile
+
+    import numpy as np
+    from metador_core.container import MetadorContainer
+    tmp = tempfile.mkdtemp(prefix="c08f_")
+    mc = None
+    try:
+        mc = MetadorContainer(os.path.join(tmp, "c.h5"), "w")
+        mc.__wrapped__["ft"] = np.dtype("int32")
+        n = mc["ft"]
+        lists = []
+        try:
+            lists = sorted(k for k in n.parent.keys() if has_reserved(k))
+        except Exception:
+            pass
+        return dict(out=[], oracle=[], tags=[], note="type=%s wrapped=%s parent_lists_reserved=%s" % (type(n).__name__, _raw_of(n) is not n, lists))
+    except Exception as e:
+        return dict(out=[], oracle=[], tags=[], note="probe raised %s" % _exc(e))
+    finally:
+        if mc is not None:
+            try:
+                mc.close()
+            except Exception:
+                pass
+        shutil.rmtree(tmp, ignore_errors=True)
+
+
 def impl(case):
     k = case["kind"]
     if k == "hist":
@@ -846,9 +1168,21 @@ def lines(case):
             if not pa:
                 continue
             meth = {"getitem": "__getitem__", "in": "__contains__", "set": "__setitem__", "del": "__delitem__", "cg": "create_group",
-                    "rg": "require_group", "cd": "create_dataset", "rd": "require_dataset", "copyg": "copy", "copyn": "copy", "copyng": "copy"}.get(op[0], op[0])
-            L.append("call %s %s" % (meth, " ".join(hx(p) for p in pa)))
+                    "rg": "require_group", "cd": "create_dataset", "cdv": "create_dataset", "rd": "require_dataset", "copyg": "copy", "copyn": "copy", "copyng": "copy"}.get(op[0], op[0])
+            if op[0] == "setv":
+                # __setitem__ with a value of the given kind: value check, then the path guard
+                L.append("setv %s %s" % (op[3]["v"], ptok(pa[0])))
+            elif any(isinstance(p, dict) for p in pa):
+                L.append("callv %s %s" % (meth, " ".join(ptok(p) for p in pa)))
+            else:
+                L.append("call %s %s" % (meth, " ".join(hx(p) for p in pa)))
     return L
+
+
+def ptok(p):
+    """driver token of a (possibly typed) path argument: s<hex> str and subclasses of str,
+    b<hex> bytes-like, o<hex> any other type"""
+    return ("s" if is_strlike(p) else ("b" if ptype(p) in BYTES_LIKE else "o")) + hx(ptxt(p))
 
 
 def compare(case, ir, mo):
@@ -903,8 +1237,9 @@ NEAR_SHAPES = ["xmetador_", "metador", "Metador_x", "metadorx_", "_metador_x", "
 
 
 def probe_ops(g, p, fresh):
-    """Every path-taking method of the protocol with `p` in every path-typed position,
-    invoked on group g. `fresh` yields unused user names for the other argument."""
+    """Every path-taking method of the protocol with `p` (a str or a typed path argument) in
+    every path-typed position, invoked on group g. `fresh` yields unused user names for the
+    other argument."""
     src_ds, src_g = ("foo/q", "g2") if g == "/" else ("q", "sub")
     dst_grp = "/g2" if g == "/" else "/foo/sub"
     abs_ds = "/foo/q"
@@ -952,6 +1287,104 @@ def proto_cases(ctx):
     return cases
 
 
+# path shapes handed over as every type of PATH_TYPES (reserved: must be refused without effect;
+# ordinary: refused without effect, or served exactly like on the plain tree)
+TYPED_RESERVED = ["metador_container", "/metador_container", "foo/metador_meta_bar", "/foo/metador_meta_", "metador_x", "nw/metador_x",
+                  "metador_container/links", "/metador_meta_top"]
+TYPED_USER = ["foo/q", "foo", "nw1", "/top", "g2/nw2"]
+
+
+def ptype_cases(ctx):
+    """protocol x argument position x path type x (reserved | ordinary) shape"""
+    cases = []
+    for drv in ("h5", "ih5"):
+        nres, nusr = (len(TYPED_RESERVED), len(TYPED_USER)) if not ctx.quick else ((5, 3) if drv == "h5" else (3, 2))
+        for t in PATH_TYPES:
+            shapes = TYPED_RESERVED[:nres] + TYPED_USER[:nusr]
+            if ctx.quick:
+                # rotate, so that the seeds of the quick tier cover all shapes for all types
+                k = (ctx.seed + PATH_TYPES.index(t)) % len(TYPED_RESERVED)
+                k2 = (ctx.seed + PATH_TYPES.index(t)) % len(TYPED_USER)
+                shapes = (TYPED_RESERVED[k:] + TYPED_RESERVED[:k])[:nres] + (TYPED_USER[k2:] + TYPED_USER[:k2])[:nusr]
+            per = 8 if drv == "h5" else 5
+            for i in range(0, len(shapes), per):
+                fresh = _fresh_gen("ft")
+                ops = list(SETUP)
+                for sh in shapes[i:i + per]:
+                    ops += probe_ops("/", typed(sh, t), fresh)
+                cases.append(dict(kind="hist", drv=drv, ops=ops, group="ptype"))
+        # relative to a subgroup
+        fresh = _fresh_gen("fs")
+        ops = list(SETUP)
+        for j, sh in enumerate(["metador_meta_bar", "sub/metador_x", "/metador_container", "q"]):
+            for t in (PATH_TYPES if drv == "h5" else PATH_TYPES[:2]):
+                if not ctx.quick or (j + PATH_TYPES.index(t) + ctx.seed) % (2 if drv == "h5" else 4) == 0:
+                    ops += probe_ops("/foo", typed(sh, t), fresh)
+        cases.append(dict(kind="hist", drv=drv, ops=ops, group="ptype"))
+    return cases
+
+
+# values for `group[name] = value` / `create_dataset(name, data=value)` that name or reference
+# other nodes (`to` / `of` are the paths they name), and named datatypes
+ALIAS_TARGETS_RESERVED = ["/metador_container", "/metador_container/links", "/foo/metador_meta_bar", "metador_meta_", "/foo/metador_meta_",
+                          "metador_container", "foo/metador_meta_bar", "/metador_meta_top"]
+ALIAS_TARGETS_USER = ["/foo", "/foo/bar", "foo/q", "/", "/nothing", "g2"]
+
+
+def alias_values(target_sets=(ALIAS_TARGETS_RESERVED, ALIAS_TARGETS_USER)):
+    vals = []
+    for ts in target_sets:
+        for to in ts:
+            vals.append({"v": "soft", "to": to})
+            vals.append({"v": "ext", "to": to})
+    for of in ["/foo", "/foo/bar", "/top", "/g2", "/"]:
+        vals += [{"v": "node", "of": of}, {"v": "ref", "of": of}, {"v": "refarr", "of": of}]
+    vals += [{"v": "regref", "of": "/foo/bar"}, {"v": "regref", "of": "/top"}, {"v": "hard"}, {"v": "dtype", "t": "int32"}, {"v": "dtype", "t": "float64"},
+             {"v": "dtypeobj"}]
+    return vals
+
+
+def through_ops(g, name):
+    """ordinary user operations that go through the name `name` in group g"""
+    pre = name
+    return [["ls", g], ["getitem", g, pre], ["get", g, pre], ["in", g, pre], ["getitem", g, pre + "/links"], ["in", g, pre + "/version"],
+            ["cg", g, pre + "/inj"], ["set", g, pre + "/injd", 3], ["del", g, pre + "/inj"], ["copy", g, pre, pre + "_cp"], ["move", g, pre, pre + "_mv"],
+            ["del", g, pre + "_mv"], ["del", g, pre]]
+
+
+def alias_cases(ctx):
+    """fixed setup, then every kind of naming / referencing value stored under an ordinary name
+    at the root and in a subgroup (through __setitem__ and create_dataset), followed by user
+    operations through the new name"""
+    cases = []
+    vals = alias_values()
+    for drv in ("h5", "ih5"):
+        per = 4 if drv == "h5" else 10
+        vv = vals
+        if ctx.quick:
+            # soft links to every target always (h5py driver); the other kinds rotate over the seeds
+            m = 2 if drv == "h5" else 3
+            vv = [v for j, v in enumerate(vals) if (drv == "h5" and v["v"] == "soft") or (j + ctx.seed) % m == 0]
+        for i in range(0, len(vv), per):
+            ops = list(SETUP)
+            for j, v in enumerate(vv[i:i + per]):
+                g = "/" if (i + j) % 3 else "/foo"
+                nm = "al%d" % (i + j)
+                ops.append(["setv", g, nm, v])
+                ops += through_ops(g, nm) if drv == "h5" and (not ctx.quick or v["v"] in ("soft", "ext", "node", "dtype", "dtypeobj")) else [["ls", g], ["getitem", g, nm], ["del", g, nm]]
+                if v["v"] in ("ref", "regref", "refarr", "node"):
+                    ops.append(["cdv", g, nm + "c", v])
+                    ops += [["ls", g], ["del", g, nm + "c"]]
+            cases.append(dict(kind="hist", drv=drv, ops=ops, group="alias", walk=True))
+    return cases
+
+
+def maybe_typed(rng, p, prob=0.08):
+    if rng.random() < prob:
+        return typed(p, rng.choice(PATH_TYPES))
+    return p
+
+
 def rand_path(rng, exists, reserved_p=0.25, near_p=0.2):
     r = rng.random()
     segs = []
@@ -985,28 +1418,41 @@ def rand_hist(rng, drv, n):
         r = rng.random()
         g = "/" if rng.random() < 0.7 or len(groups) < 2 else rng.choice(groups)
         rel = (lambda p: p)  # paths are taken relative to g as they are
-        if r < 0.16:
+        if r < 0.05:
+            # a value that names / references other nodes, stored under an ordinary (sometimes
+            # reserved) name; later operations may go through that name
+            p = rand_path(rng, allp(), reserved_p=0.1)
+            tgt = rng.choice(ALIAS_TARGETS_RESERVED + ALIAS_TARGETS_USER + allp()[:6])
+            of = rng.choice((allp() or ["/"]) + ["/"])
+            v = rng.choice([{"v": "soft", "to": tgt}, {"v": "soft", "to": tgt}, {"v": "ext", "to": tgt}, {"v": "node", "of": of}, {"v": "ref", "of": of},
+                            {"v": "refarr", "of": of}, {"v": "regref", "of": of}, {"v": "hard"}, {"v": "dtype", "t": "int32"}, {"v": "dtypeobj"}])
+            ops.append([rng.choice(["setv", "setv", "setv", "cdv"]) if v["v"] in ("ref", "refarr", "regref") else "setv", g, p, v])
+            if not has_reserved(p) and g == "/":
+                groups.append("/" + p.strip("/"))
+                if v["v"] in ("soft", "ext") and has_reserved(tgt):
+                    groups.append("/" + p.strip("/") + "/" + rng.choice(["links", "schemas", "version", "x"]))
+        elif r < 0.16:
             p = rand_path(rng, allp())
-            ops.append(["set", g, p, rng.choice([1, 42, {"a": [1, 2]}, {"a": [[1, 2], [3, 4]]}, {"a": []}] + ([{"b": "61ff62"}] if drv == "h5" else []))])
+            ops.append(["set", g, maybe_typed(rng, p), rng.choice([1, 42, {"a": [1, 2]}, {"a": [[1, 2], [3, 4]]}, {"a": []}] + ([{"b": "61ff62"}] if drv == "h5" else []))])
             if not has_reserved(p) and g == "/":
                 dsets.append("/" + p.strip("/"))
         elif r < 0.26:
             p = rand_path(rng, allp())
-            ops.append([rng.choice(["cg", "rg"]), g, p])
+            ops.append([rng.choice(["cg", "rg"]), g, maybe_typed(rng, p)])
             if not has_reserved(p) and g == "/":
                 groups.append("/" + p.strip("/"))
         elif r < 0.32:
             p = rand_path(rng, allp())
-            ops.append(rng.choice([["cd", g, p, {"a": [3, 4]}], ["rd", g, p, [2]]]))
+            ops.append(rng.choice([["cd", g, maybe_typed(rng, p), {"a": [3, 4]}], ["rd", g, maybe_typed(rng, p), [2]]]))
             if not has_reserved(p) and g == "/":
                 dsets.append("/" + p.strip("/"))
         elif r < 0.40 and allp():
             p = rng.choice(allp()) if rng.random() < 0.7 else rand_path(rng, allp())
-            ops.append(["del", "/", p])
+            ops.append(["del", "/", maybe_typed(rng, p)])
         elif r < 0.50 and allp():
             s = rng.choice(allp()) if rng.random() < 0.75 else rand_path(rng, allp())
             d = rand_path(rng, allp())
-            ops.append([rng.choice(["move", "copy"]), "/", s, d])
+            ops.append([rng.choice(["move", "copy"]), "/", maybe_typed(rng, s, 0.05), maybe_typed(rng, d, 0.05)])
             if not has_reserved(d) and not has_reserved(s):
                 (dsets if s in dsets else groups).append("/" + d.strip("/"))
         elif r < 0.58 and allp() and len(groups) > 1:
@@ -1021,7 +1467,7 @@ def rand_hist(rng, drv, n):
             ops.append(["meta_del", rng.choice(allp() + ["/"]), rng.choice(["core.bib", "core.dir"])])
         elif r < 0.90:
             p = rand_path(rng, allp(), reserved_p=0.4)
-            ops.append([rng.choice(["getitem", "get", "in"]), g, p])
+            ops.append([rng.choice(["getitem", "get", "in"]), g, maybe_typed(rng, p, 0.12)])
         elif r < 0.95:
             ops.append(["ls", rng.choice(groups)])
         elif drv == "ih5":
@@ -1166,14 +1612,18 @@ def attrs_cases(ctx):
 
 
 def gen_cases(ctx):
-    return proto_cases(ctx) + paths_cases(ctx) + plant_cases(ctx) + hist_cases(ctx) + attrs_cases(ctx)
+    return proto_cases(ctx) + ptype_cases(ctx) + alias_cases(ctx) + paths_cases(ctx) + plant_cases(ctx) + hist_cases(ctx) + attrs_cases(ctx)
 
 
 def run(ctx):
     ctx.rule = ("cases: (paths) the four path functions of container/utils.py on fixed + generated strings; (plant) raw trees with "
                 "reserved-named nodes planted through mc.__wrapped__, every listing primitive through the wrapper; (hist) fixed setup with metadata at "
                 "root/group/dataset followed by every path-taking protocol method x reserved shape x argument position (proto), the same with "
-                "near-miss names (near), and random histories mixing data ops, metadata ops, reserved and near-miss paths (rand), on h5py.File and IH5Record; "
+                "near-miss names (near), the same with the path handed over as bytes / numpy.bytes_ / numpy.str_ / str subclass / pathlib / tuple / bytearray for reserved "
+                "and ordinary shapes (ptype), every kind of value that names or references other nodes (SoftLink, ExternalLink, HardLink, node object, object and "
+                "region reference, array of references, numpy.dtype, h5py.Datatype) assigned under ordinary names with reserved and user targets and followed by "
+                "user operations through the new name (alias), and random histories mixing data ops, metadata ops, reserved / near-miss / typed paths and such "
+                "values (rand), on h5py.File and IH5Record; "
                 "(attrs) after the fixed setup and after random histories, every public attribute of the raw driver object (dir() of the h5py/IH5 "
                 "object and class + __iter__/__reversed__/__len__) requested through the wrapper on every user node: refused, or examined for the "
                 "names/nodes it hands out (value, recording callback, result, iteration) and, for group methods outside the enumerated protocol, "
@@ -1189,10 +1639,19 @@ def run(ctx):
     ]
     ctx.exhaustive_spaces.append("protocol (17 call shapes incl. copy source/dest string/dest group+name=) x %d reserved shapes x both drivers on a fixed container with metadata at root, group and datasets" % (len(RESERVED_SHAPES) + len(RESERVED_SHAPES_REL_FOO)))
     ctx.exhaustive_spaces.append("every public attribute of the raw object behind every swept node (root, groups, datasets of the fixed setup; both drivers)")
+    if not ctx.quick:
+        ctx.exhaustive_spaces.append("protocol (call shapes with positional path arguments) x %d path types x %d reserved + %d ordinary shapes x both drivers; %d naming/referencing values x (root, subgroup) on both drivers" % (
+            len(PATH_TYPES), len(TYPED_RESERVED), len(TYPED_USER), len(alias_values())))
+    ctx.assumptions.append("h5py reports the path a node was reached by as its `name`, and `h5o.get_info(id).addr` identifies the HDF5 object behind a handle (used by the identity oracle of `check_walk`; IH5 has no links and no object identity besides the name)")
     cases = core.load_corpus(ID) + gen_cases(ctx)
     ctx.correspond("reserved-namespace", MOD, cases, lines, "drv_pth", compare=compare, timeout=120)
     for c in cases:
         ctx.dist["kind:" + c["kind"] + (":" + c.get("group", "") if c.get("group") else "") + (":" + c.get("drv", "") if c.get("drv") else "")] += 1
+    # informational, non-binding: named datatype planted behind the wrapper's back
+    from .. import pool
+    r = pool.run_one(MOD, "impl_foreign", {}, timeout=60)
+    if "ok" in r and r["ok"].get("note"):
+        ctx.notes.append("informational (outside C08, not creatable through the container): foreign named datatype planted through the raw file: " + r["ok"]["note"])
 
 
 def signature(case, detail):
@@ -1207,7 +1666,11 @@ def shrink(ctx, case, detail):
         def fails(ops):
             r = pool.run_one(MOD, "impl", dict(case, ops=ops), timeout=120)
             return "ok" in r and any(d.get("kind") == want for d in r["ok"]["oracle"])
-        ops = core.ddmin(case["ops"], fails, max_tests=40)
+        ops0 = case["ops"]
+        st = detail.get("step") if isinstance(detail, dict) else None
+        if isinstance(st, int) and st + 1 < len(ops0) and fails(ops0[:st + 1]):
+            ops0 = ops0[:st + 1]  # nothing after the failing step is needed
+        ops = core.ddmin(ops0, fails, max_tests=40)
         r = pool.run_one(MOD, "impl", dict(case, ops=ops), timeout=120)
         ds = [d for d in r.get("ok", {}).get("oracle", []) if d.get("kind") == want]
         if ds:
